@@ -35,6 +35,7 @@ numeric level differs):
 Per shard at most PER_KEY examples are kept per key (all are counted).
 """
 import collections
+import itertools
 import json
 from fractions import Fraction
 
@@ -801,13 +802,13 @@ GROUP = {
     "set": "build", "dict": "build", "unique": "build", "frequencies": "build", "count_distinct": "build",
     "group_all": "build",
     "keys": "view", "values": "view", "items": "view", "len": "view",
-    "eqdict": "eqdict", "memoize": "memoize",
+    "eqdict": "eqdict", "memoize": "memoize", "bulk": "write", "bulk_memo": "memoize",
 }
 OPS = [("lit", 3), ("lit_e", 4), ("setlit", 1), ("splat", 2), ("index", 6), ("safe", 4), ("in", 5), ("assign", 7),
        ("opassign", 5), ("opassign_lhs_default", 3), ("remove", 4), ("add", 3), ("discard", 3), ("insert", 4),
        ("union", 4), ("inter", 3), ("diff", 3), ("addmerge", 3), ("set", 3), ("dict", 3), ("unique", 3),
        ("frequencies", 3), ("count_distinct", 3), ("group_all", 3), ("keys", 2), ("values", 2), ("items", 2),
-       ("len", 2), ("eqdict", 4), ("memoize", 5)]
+       ("len", 2), ("eqdict", 4), ("memoize", 5), ("bulk", 2), ("bulk_memo", 0.4)]
 OP_NAMES = [o for o, _w in OPS]
 OP_WEIGHTS = [w for _o, w in OPS]
 
@@ -1106,10 +1107,41 @@ class Hist:
                         inv.append(fresh[0])
             lit = "{%s}" % self.entries_src(ents)
             return (("d == %s" if r.random() < 0.5 else "%s == d") % lit), ("val", want), inv
+        if op == "bulk":
+            # many filler entries at once (tables beyond the sizes a literal reaches: size-dependent paths of the
+            # merge operators), written through int or float spellings of the same keys; d and e get overlapping
+            # ranges with different values
+            md, name = (d, "d") if r.random() < 0.5 else (e, "e")
+            if len(md.m) > 260:
+                return None
+            n = r.choice([30, 33, 40, 64, 70, 130])
+            lo = 1000 + r.choice([0, 16, 35])
+            flt = r.random() < 0.4
+            sign = 1 if name == "d" else -1
+            for i in range(lo, lo + n):
+                if ckey(i) in md.m and isinstance(md.m[ckey(i)][0].val, float) != flt:
+                    self.cross += 1
+                md.put(A("%d.0" % i, float(i), "float") if flt else A(str(i), i, "int"), sign * i)
+            key = "i + 0.0" if flt else "i"
+            val = "i" if sign > 0 else "0 - i"
+            return "for (i <- %d til %d) %s[%s] = %s" % (lo, lo + n, name, key, val), ("ok",), md.reps()[:8]
+        if op == "bulk_memo":
+            # more distinct arguments than a bounded cache would hold: everything remembered before must still
+            # be remembered afterwards
+            if len(self.memo1) > 1500:
+                return None
+            n = r.choice([300, 1030, 1100])
+            lo = 5000 + len(self.memo1)
+            for i in range(lo, lo + n):
+                t = A(str(i), i, "int")
+                if t.ck not in self.memo1:
+                    self.cnt += 1
+                    self.memo1[t.ck] = (t, self.cnt)
+            return "for (i <- %d til %d) m(i)" % (lo, lo + n), ("ok",), []
         if op == "memoize":
             if r.random() < 0.7:
                 k = self.key()
-                prev = [t for t, _n in self.memo1.values()]
+                prev = [t for t, _n in itertools.islice(self.memo1.values(), 40)]
                 if k.ck in self.memo1:
                     if leafdiff(self.memo1[k.ck][0], k, set(), True):
                         self.cross += 1
